@@ -215,9 +215,14 @@ class UpgradedSignature(_util.funcsigs.Signature):
         )
 
     def __eq__(self, other):
-        if not super().__eq__(other):
-            return False
-        return self.upgraded_return_annotation == other.upgraded_return_annotation
+        plain_eq = super().__eq__(other)
+        if plain_eq is not True:
+            return plain_eq
+        if isinstance(other, UpgradedSignature):
+            return self.upgraded_return_annotation == other.upgraded_return_annotation
+        return True
+
+    __hash__ = _util.funcsigs.Signature.__hash__
 
 
 Signature = UpgradedSignature
@@ -294,9 +299,14 @@ class UpgradedParameter(_util.funcsigs.Parameter):
         return self.replace(annotation=self.upgraded_annotation.source_value())
 
     def __eq__(self, other):
-        if not super().__eq__(other):
-            return False
-        return self.upgraded_annotation == other.upgraded_annotation
+        plain_eq = super().__eq__(other)
+        if plain_eq is not True:
+            return plain_eq
+        if isinstance(other, UpgradedParameter):
+            return self.upgraded_annotation == other.upgraded_annotation
+        return True
+
+    __hash__ = _util.funcsigs.Parameter.__hash__
 
 
 def _upgrade_parameters_with_warning(parameters, stacklevel=1):
